@@ -476,6 +476,20 @@ fn exec_c04(case: &Case, obs: &mut Obs) -> Result<(), Failure> {
         )
     })?;
     obs.reader_calls += out.mon.calls;
+    if let ReaderCfg::Refusing(_) = &case.reader {
+        // read faults: the result may differ from the fault-free one by a
+        // read error only
+        obs.add("fault:read-declined", out.mon.refusals.len() as u64);
+        let base = Ok(expected.clone());
+        return read_fault_consistent(&base, &out.result).map_err(|d| {
+            Failure::new(
+                "C04",
+                "read-fault-changes-only-read-errors",
+                &cls,
+                format!("decoding {} through a reader that declines spans across {:?}: {}", to_hex(&enc[..enc.len().min(48)]), case.reader, d),
+            )
+        });
+    }
     match &out.result {
         Ok(got) if *got == expected => {
             if out.remaining != 0 {
@@ -624,6 +638,14 @@ impl Scenario for C04 {
             let (writer, prefix) = draw_writer(&mut sm);
             let reader = if sm.chance(1, 4) {
                 ReaderCfg::Real
+            } else if sm.chance(1, 8) {
+                // read faults: discontinuities anywhere in header, padding or payload
+                let guess = 14 + match &m {
+                    SpecMessage::Data { data, .. } => data.len().min(4000),
+                    _ => 0,
+                };
+                ctx.obs.count("fault:reader-declines-spans");
+                draw_refusing(&mut sm, guess)
             } else {
                 draw_reader(&mut sm, 32)
             };
